@@ -87,7 +87,7 @@ TEXT.update({
 TEXT.update({
  "C04": dict(
   level="Theorem C04_main (inf/C04Main.v, ~750 lines): for every Go type T of the domain, every well-typed value v and its encoding j under the model of encoding/json (field selection by JSON-name dominance through embedding, omitempty, omitzero on or off, nil pointers/slices/interfaces as null, embedded structs by value and pointer), the schema the transcription of forType returns for T accepts j under the specification function at every location and dynamic scope - hence (C04_validate) the model's Validate returns nil. Induction over the type with the struct case by a fold invariant (properties = selected fields in order, names pairwise distinct) and a read-along-index lemma. The three models (Go types/values, encoding/json, forType) are tied to the package and to the real encoder on every run: schema document, every encoding and every verdict compared on ~2500 generated (type, options, values) cases.",
-  note="Domain hypotheses of the theorem (good, wt): TypeSchemas holds only the standard marshaler types as strings; IgnoreInvalidTypes off; per struct type, struct_ok (the selected fields are the declared fields at their index sequences, reached through embedded fields - true of every type, proved per concrete type by computation, not yet universally). big.Int is a known finding (O-7b).",
+  note="C04_domain states the domain as a computable condition dom o T (defined types have no TypeSchemas entry, marshaler types have their string entry, no embedded struct replaced, unexported embedded types carry no json name) plus wt on values; the per-struct side conditions are proved for every type (json_fields_ok, json_fields_ext, json_fields_local). IgnoreInvalidTypes off, default debug setting. big.Int is a known finding (O-7b).",
  ),
  "C09": dict(
   level="Theorem C09_scalar_verdict: for bool, every integer kind, floats and strings the inferred schema's verdict on ANY JSON value equals decodes_scalar - the right JSON type and, for sized integers, the exact range of the kind (exact-verdict lemma leaf_verdict over the specification function). For composite types the property is decided by the correspondence law on the real decoder: every single-point mutation of an encoding that the inferred schema accepts must decode into the type with DisallowUnknownFields; the schema side of that law (which documents are accepted) is compared with the model.",
